@@ -188,12 +188,26 @@ class Deliver(Part):
     exec_module = "DeliverExec"
     parallel = False        # the runs are timing-sensitive enough: one at a time
     branch_names = {1: "several_senders", 2: "crosses_batch_bound_4096", 3: "over_300_consecutive_batches",
-                    4: "restarts_with_senders_active", 5: "sends_while_Started_is_running", 6: "children_listed_while_they_stop"}
+                    4: "restarts_with_senders_active", 5: "sends_while_Started_is_running", 6: "children_listed_while_they_stop",
+                    7: "stop_request_racing_restarts_and_senders"}
     restart_only = False
     spawnrace_only = False
     childrenrace_only = False
+    stoprace_only = False
 
     def generate(self, rng, tier):
+        if self.stoprace_only:
+            cs = []
+            for k in range(4 if tier == "quick" else 24):
+                fixed = k < 4
+                nsend = 3 if fixed else rng.randint(2, 4)
+                per = 150 if fixed else rng.randint(80, 250)
+                p1 = 10 + 5 * k if fixed else rng.randint(3, 40)
+                cs.append(dict(mode="stoprace", senders=nsend, per_sender=per, inbox_size=1 + k % 3,
+                               panic_at=[[1, p1]] + ([[2, p1 + 30]] if k % 2 else []),
+                               restart_delay_ms=[10, 25, 40][k % 3], handler_micros=[150, 400][k % 2], pace_micros=[300, 150][k // 2 % 2],
+                               stop_at=(p1 + 40 + 15 * (k % 4)) if fixed else rng.randint(p1 + 5, per), poison=k % 2 == 1))
+            return [{"input": c, "class": "stoprace"} for c in cs]
         cs = [dict(mode="chain", total=350), dict(mode="chain", total=1000),
               dict(mode="multi", senders=1, per_sender=500, inbox_size=1),
               dict(mode="multi", senders=4, per_sender=400, inbox_size=1),
@@ -240,7 +254,8 @@ class Deliver(Part):
             C.clist(["{| g_from := %s; g_seq := %s; g_sender_ok := %s |}" % (C.cnat(g[0]), C.cnat(min(g[1], 4999)), C.cbool(g[2] == 1))
                      for g in obs["got"]]), C.cbool(obs["hang"]), C.cbool(obs.get("overlap", False)),
             C.cnat(len(inp.get("panic_at", []))))
-        return (head + "c_spawnrace := " + C.cbool(inp["mode"] == "spawnrace") + "; c_spawn_early := " +
+        return (head + "c_spawnrace := " + C.cbool(inp["mode"] == "spawnrace") + "; c_stoprace := " + C.cbool(inp["mode"] == "stoprace") +
+                "; c_spawn_early := " +
                 C.cbool(obs.get("spawn_early", False)) + "; c_anomalies := " + C.cnat(min(obs.get("anomalies", 0), 4999)) + " |}")
 
     def describe_obs(self, obs):
@@ -260,6 +275,13 @@ class DeliverSpawnRace(Deliver):
     name = "engine_spawn_race"
     spawnrace_only = True
     parallel = True
+
+
+class DeliverStopRace(Deliver):
+    """a stop or poison request racing restarts (senders active during the restart delay) and busy handlers"""
+    name = "engine_stop_race"
+    stoprace_only = True
+    parallel = False
 
 
 class DeliverRestart(Deliver):
